@@ -36,6 +36,9 @@ func Abs(ctx *expr.Context, input system.Collection, args ...expr.Expression) (s
 		if err != nil {
 			return nil, err
 		}
+		if number == math.MinInt32 {
+			return system.Collection{}, nil // |MinInt32| is not representable: empty
+		}
 		// Absolution number
 		res := math.Abs(float64(number))
 		return system.Collection{system.Integer(res)}, nil
@@ -81,6 +84,9 @@ func Ceiling(ctx *expr.Context, input system.Collection, args ...expr.Expression
 	}
 	// Ceiling number
 	result := math.Ceil(number)
+	if !fitsInteger(result) {
+		return system.Collection{}, nil
+	}
 	return system.Collection{system.Integer(result)}, nil
 }
 
@@ -124,6 +130,9 @@ func Floor(ctx *expr.Context, input system.Collection, args ...expr.Expression) 
 	}
 	// Flooring number
 	result := math.Floor(number)
+	if !fitsInteger(result) {
+		return system.Collection{}, nil
+	}
 	return system.Collection{system.Integer(result)}, nil
 }
 
@@ -339,7 +348,15 @@ func Truncate(ctx *expr.Context, input system.Collection, args ...expr.Expressio
 	}
 	// Ceiling number
 	result := math.Trunc(number)
+	if !fitsInteger(result) {
+		return system.Collection{}, nil
+	}
 	return system.Collection{system.Integer(result)}, nil
+}
+
+// fitsInteger reports whether the (integral) float value is representable as a System Integer.
+func fitsInteger(f float64) bool {
+	return f >= math.MinInt32 && f <= math.MaxInt32
 }
 
 func logToBase(number, base float64) float64 {
